@@ -182,7 +182,7 @@ func runC15(p *core.Prog, r *core.Report, tier string) {
 
 	// ---- (e) independent members ----
 	nLoops := 0
-	for _, spec := range []struct{ rel, recv, name string }{{scmRel, "Service", "Prepare"}, {scmRel, "Service", "Message"}, {scaRel, "Service", "Aggregate"}} {
+	for _, spec := range []struct{ rel, recv, name string }{{scmRel, "Service", "Prepare"}, {scmRel, "Service", "Message"}, {scaRel, "Service", "Aggregate"}, {scmRel, "Service", "getAggregatorsSignatureData"}} {
 		f := p.Func(spec.rel, spec.recv, spec.name)
 		if f == nil {
 			r.Undecide("C15.anchor", spec.rel+"."+spec.name, "", "anchor not found")
@@ -196,6 +196,9 @@ func runC15(p *core.Prog, r *core.Report, tier string) {
 				cond := enclosingIfCond(l, ex.Stmt)
 				if cond != nil && condIsErrTest(p.PkgOf(f).TypesInfo, cond) {
 					continue // leaving on an error of a call is outside this clause
+				}
+				if cond != nil && condIsCallOutcome(p.PkgOf(f).TypesInfo, cond, l.Body) {
+					continue // leaving because a library call did not do its work (short write) is likewise not about a member
 				}
 				bad++
 				r.Violate("C15.e", construct+"|exit-on|"+exprOrNone(cond), p.Pos(ex.Stmt.Pos()), "the per-member loop is left ("+ex.Kind+") when "+exprOrNone(cond)+": one member's missing account or signature suppresses the messages/contributions of the others")
@@ -265,6 +268,16 @@ func runC15(p *core.Prog, r *core.Report, tier string) {
 		}
 	}
 	r.Floor("C15.j sync committee scheduling calls", nElig, 5)
+
+	// ---- (k) chain constants are read under their own names (sync committee size, subnet count, aggregator target):
+	// shared with C14.k ----
+	nSpec15 := checkSpecConstantNames(p, r, "C15.k")
+	r.Floor("C15.k fields filled from chain constants", nSpec15, 8)
+
+	// ---- (l) a refresh withdraws exactly the jobs of the window it refreshes: the controller cancels by full job
+	// name (which carries the slot), never by prefix — a prefix also matches the jobs of the period under way,
+	// whose prepare jobs have already run and will not recreate them ----
+	checkNoPrefixCancel(p, r, "C15.l")
 
 	// ---- (f) index spaces ----
 	decided, unknown := 0, 0
@@ -706,4 +719,89 @@ func orStr(a, b string) string {
 		return a
 	}
 	return b
+}
+
+// checkNoPrefixCancel: no function of the controller calls the scheduler's CancelJobs (cancellation by prefix).
+func checkNoPrefixCancel(p *core.Prog, r *core.Report, rule string) {
+	n, nCancel := 0, 0
+	for _, f := range p.FuncsIn("services/controller/standard") {
+		for _, ci := range core.Calls(f, func(c *ssa.CallCommon) bool {
+			return c.IsInvoke() && (c.Method.Name() == "CancelJobs" || c.Method.Name() == "CancelJob" || c.Method.Name() == "CancelJobIfExists")
+		}) {
+			nCancel++
+			if ci.Common().Method.Name() != "CancelJobs" {
+				continue
+			}
+			n++
+			args := ci.Common().Args
+			r.Violate(rule, fmt.Sprintf("%s|cancel-by-prefix#%d", core.FnKey(f), n), p.Pos(ci.Pos()), "the controller cancels every job whose name starts with a prefix: jobs outside the window being refreshed (the current slot's and next slot's messages and contributions of the period under way) are withdrawn too and nothing sets them up again")
+			_ = args
+		}
+	}
+	if n == 0 {
+		r.Hold(rule, "controller|cancels-by-name-only", "", fmt.Sprintf("%d job cancellations in the controller, all by full job name", nCancel))
+	}
+	r.Floor(rule+" job cancellations in the controller", nCancel, 3)
+}
+
+// condIsCallOutcome: every variable the condition tests (outside len(...) arguments) was assigned from the results
+// of a call in the loop body (e.g. `n != len(buf)` after `n, err := h.Write(buf)`).
+func condIsCallOutcome(info *types.Info, cond ast.Expr, body *ast.BlockStmt) bool {
+	fromCall := map[types.Object]bool{}
+	ast.Inspect(body, func(n ast.Node) bool {
+		as, ok := n.(*ast.AssignStmt)
+		if !ok || len(as.Rhs) != 1 {
+			return true
+		}
+		if _, isCall := as.Rhs[0].(*ast.CallExpr); !isCall {
+			return true
+		}
+		for _, l := range as.Lhs {
+			if id, ok := l.(*ast.Ident); ok {
+				if o := info.Defs[id]; o != nil {
+					fromCall[o] = true
+				} else if o := info.Uses[id]; o != nil {
+					fromCall[o] = true
+				}
+			}
+		}
+		return true
+	})
+	tested, all := 0, true
+	var walk func(n ast.Node)
+	walk = func(n ast.Node) {
+		switch x := n.(type) {
+		case *ast.CallExpr:
+			if id, ok := x.Fun.(*ast.Ident); ok && id.Name == "len" {
+				return
+			}
+			all = false // a method or function of something else: not a plain outcome test
+			return
+		case *ast.Ident:
+			o := info.Uses[x]
+			if o == nil {
+				return
+			}
+			if _, isVar := o.(*types.Var); !isVar {
+				return
+			}
+			tested++
+			if !fromCall[o] {
+				all = false
+			}
+			return
+		case *ast.BinaryExpr:
+			walk(x.X)
+			walk(x.Y)
+		case *ast.UnaryExpr:
+			walk(x.X)
+		case *ast.ParenExpr:
+			walk(x.X)
+		case *ast.BasicLit:
+		default:
+			all = false
+		}
+	}
+	walk(cond)
+	return all && tested > 0
 }
